@@ -778,7 +778,11 @@ def gen_content(rng, kind):
         shape = [1] if kind == "flat1" else rng.choice([[3], [2, 2], [1], [4]])
         if kind == "flat1" and d in ("str", "bfloat16", "complex64", "complex128"):
             d = "float32"
-        return rand_spec(rng, d, shape, layout=rng.choice(["C", "C", "F", "strided"]))
+        spec = rand_spec(rng, d, shape, layout=rng.choice(["C", "C", "F", "strided"]))
+        if kind == "flat" and rng.random() < 0.3:
+            spec["layout"] = "C"
+            spec["via"] = rng.choice(["ro_view", "broadcast", "diagonal"])
+        return spec
     if kind == "nestlist":
         r, c = rng.randrange(1, 4), rng.randrange(1, 4)
         return [[rng.randrange(-50, 50) for _ in range(c)] for _ in range(r)]
@@ -836,6 +840,8 @@ def apply_mut(site, obj, m, kind):
     import numpy as np
 
     if kind in ("flat", "flat1"):
+        if id(obj) in BASES:
+            obj = BASES[id(obj)][1]  # write through the base the caller owns
         if obj.size == 0:
             return False
         d = canon_name(obj.dtype)
@@ -901,9 +907,32 @@ def apply_mut(site, obj, m, kind):
     return True
 
 
+BASES: dict = {}  # id(read-only view handed to spox) -> (view, the caller's writable base it looks into)
+
+
 def make_caller_object(site, content):
+    import numpy as np
+
     if site.kind in ("flat", "flat1"):
-        return make_array(content)
+        a = make_array(content)
+        via = content.get("via")
+        if via and a.ndim >= 1 and a.size:
+            # the caller hands over a *read-only view* and later writes through the base it still owns
+            if via == "ro_view":
+                base = a.copy()
+                v = base.view()
+                v.setflags(write=False)
+            elif via == "broadcast":
+                base = a.reshape(-1).copy()
+                v = np.broadcast_to(base, (2,) + base.shape)
+            else:  # diagonal
+                n = a.size
+                base = np.zeros((n, n), dtype=a.dtype)
+                base[np.arange(n), np.arange(n)] = a.reshape(-1)
+                v = np.diagonal(base)
+            BASES[id(v)] = (v, base)
+            return v
+        return a
     if site.kind == "nestlist":
         return [list(r) for r in content]
     if site.kind == "nestarr":
